@@ -85,7 +85,14 @@ ASSUMPTIONS = ['operand values are taken from the lens analysis API (paraxial, a
                'around OptimizerGeneric._fun in the calling process (evaluations in worker processes are not seen)',
                'DifferentialEvolution(workers=-1) is observed in a subprocess; a timeout there records the event '
                'de_mp_timeout and no verdict',
-               'interior solves in front of the stop (C01 finding) are not generated: only image-surface solves']
+               'interior solves in front of the stop (C01 finding) are not generated: only image-surface solves',
+               'tolerances: 1e-12 (set/get, bounds, lens == result.x, undo) and 1e-9 (merit vs objective, solves) relative; '
+               'widened only by stated floating-point conditioning: 16 eps max|z visited| for thickness read-back / vertex '
+               'positions (positions are stored absolutely), 4x the measured change of the merit under the update(value) '
+               'round trip of the variables, and sum 2 w^2 |v-t| |v| as the scale of a converged (cancelling) merit',
+               'optimize() not returning is outside the statement: an exception raised by the analysis code under an operand, '
+               'or scipy rejecting a start that lies exactly on a bound, is counted (events) and gives no verdict; after an '
+               'undo() on a lens with pickups/solves the harness calls Optic.update() before continuing the sequence']
 _OPT = 'optiland.optimization.optimization'
 ANCHORS = [(_OPT, 'OptimizationProblem.sum_squared'), (_OPT, 'OptimizationProblem.update_optics'),
            (_OPT, 'OptimizerGeneric._fun'), (_OPT, 'OptimizerGeneric.optimize'), (_OPT, 'OptimizerGeneric.undo'),
@@ -679,7 +686,8 @@ def judge_run(rec, info, o, fe):
         # scipy's TRF moves a start that lies within 1e-10 of a bound into the interior before its first evaluation;
         # relative to that first evaluation the objective did not get worse
         mech = MECH_TRF
-    rec.check('not-worse-than-start', ok, resid=max(o['fun'] - m_start, 0.0), tol=max(1e-12 * abs(m_start), 1e-300),
+    rec.check('not-worse-than-start', ok, resid=max(o['fun'] - m_start, 0.0),
+              tol=max(1e-12 * abs(m_start), 1e-300) + 4 * o.get('round_sens', 0.0),
               key='not-worse-than-start:' + mech,
               msg=f'{fe}: returned objective {o["fun"]!r} is worse than the merit at the start {m_start!r}'
                   + (' (the feasible start lies outside the wrongly scaled bounds handed to scipy)' if clipped_by_mech else '')
